@@ -217,14 +217,14 @@ def check_truncate_result(ctx, S, mask, norm_new, err, case, prefix='truncate'):
                       case)
         ok = False
     nn = math.sqrt(math.fsum(float(x)**2 for x in kept))
-    if abs(norm_new - nn) > 1e-12 * max(nn, 1e-300):
+    if not (abs(norm_new - nn) <= 1e-12 * max(nn, 1e-300)):
         ctx.violation(prefix + ':norm_new-wrong', 'norm_new %r vs |S[mask]| %r' % (norm_new, nn), case)
         ok = False
     eps = math.fsum(float(x)**2 for x in disc)
-    if abs(err.eps - eps) > 1e-12 * max(eps, 1e-300) + 0.0:
+    if not (abs(err.eps - eps) <= 1e-12 * max(eps, 1e-300) + 0.0):
         ctx.violation(prefix + ':eps-not-discarded-weight', 'err.eps %r vs sum S[~mask]^2 %r' % (err.eps, eps), case)
         ok = False
-    if abs(err.ov - (1 - 2 * eps)) > 1e-12:
+    if not (abs(err.ov - (1 - 2 * eps)) <= 1e-12):
         ctx.violation(prefix + ':ov-wrong', 'err.ov %r vs 1-2eps %r' % (err.ov, 1 - 2 * eps), case)
         ok = False
     return ok
@@ -284,7 +284,7 @@ def case_terr(ctx, i):
     e = TruncationError.from_S(Sd, no)
     eps = math.fsum(x * x for x in Sd) / ((no * no) if no else 1.0)
     case = {'part': 'terr', 'S_discarded': Sd.tolist(), 'norm_old': no}
-    if abs(e.eps - eps) > 1e-14 or abs(e.ov - (1 - 2 * eps)) > 1e-14:
+    if not (abs(e.eps - eps) <= 1e-14) or not (abs(e.ov - (1 - 2 * eps)) <= 1e-14):
         ctx.violation('TruncationError.from_S:wrong', 'eps %r ov %r expected %r' % (e.eps, e.ov, eps), case)
     nn, n0 = float(rng.uniform(0.1, 1)), float(rng.uniform(1, 2))
     if rng.random() < 0.5:
@@ -293,11 +293,11 @@ def case_terr(ctx, i):
     else:
         e2 = TruncationError.from_norm(nn)
         eps2 = 1 - nn**2
-    if abs(e2.eps - eps2) > 1e-14 or abs(e2.ov - (1 - 2 * eps2)) > 1e-14:
+    if not (abs(e2.eps - eps2) <= 1e-14) or not (abs(e2.ov - (1 - 2 * eps2)) <= 1e-14):
         ctx.violation('TruncationError.from_norm:wrong', 'eps %r ov %r expected %r' % (e2.eps, e2.ov, eps2), case)
     e_eps, e_ov, e2_eps, e2_ov = e.eps, e.ov, e2.eps, e2.ov
     s = e + e2
-    if abs(s.eps - (e_eps + e2_eps)) > 1e-14 or abs(s.ov - e_ov * e2_ov) > 1e-14:
+    if not (abs(s.eps - (e_eps + e2_eps)) <= 1e-14) or not (abs(s.ov - e_ov * e2_ov) <= 1e-14):
         ctx.violation('TruncationError.__add__:wrong', 'sum eps %r ov %r' % (s.eps, s.ov), case)
     if (e.eps, e.ov, e2.eps, e2.ov) != (e_eps, e_ov, e2_eps, e2_ov):
         ctx.violation('TruncationError.__add__:mutates-operand', 'operands changed by +', case)
@@ -305,13 +305,13 @@ def case_terr(ctx, i):
     c.eps += 1
     if e.eps != e_eps:
         ctx.violation('TruncationError.copy:aliases', 'copy shares state', case)
-    if abs(s.ov_err - (1 - s.ov)) > 1e-15:
+    if not (abs(s.ov_err - (1 - s.ov)) <= 1e-15):
         ctx.violation('TruncationError.ov_err:wrong', '', case)
     z = TruncationError()
     if z.eps != 0.0 or z.ov != 1.0:
         ctx.violation('TruncationError.default:not-zero', '', case)
     s3 = z + e
-    if abs(s3.eps - e_eps) > 1e-15 or abs(s3.ov - e_ov) > 1e-15:
+    if not (abs(s3.eps - e_eps) <= 1e-15) or not (abs(s3.ov - e_ov) <= 1e-15):
         ctx.violation('TruncationError.__add__:zero-not-neutral', '', case)
     ctx.count('terr.cases')
     ctx.sig(('terr', n, no is None), nontrivial=n > 0)
@@ -395,21 +395,21 @@ def case_svd_theta(ctx, i):
     if Ud.shape != (dense.shape[0], k) or Vd.shape != (k, dense.shape[1]):
         ctx.violation('svd_theta:shape-mismatch', 'U %s S %d VH %s' % (Ud.shape, k, Vd.shape), case)
         return
-    if abs(np.linalg.norm(S) - 1) > 1e-10:
+    if not (abs(np.linalg.norm(S) - 1) <= 1e-10):
         ctx.violation('svd_theta:S-not-normalised', '|S|=%r' % np.linalg.norm(S), case)
     tol = 1e-9 if not big else 1e-6
-    if np.linalg.norm(Ud.conj().T @ Ud - np.eye(k)) > tol or np.linalg.norm(Vd @ Vd.conj().T - np.eye(k)) > tol:
+    if not (np.linalg.norm(Ud.conj().T @ Ud - np.eye(k)) <= tol) or not (np.linalg.norm(Vd @ Vd.conj().T - np.eye(k)) <= tol):
         ctx.violation('svd_theta:factors-not-isometric', '', case)
     recon = (Ud * (S * renorm)[None, :]) @ Vd
     err2 = np.linalg.norm(dense - recon)**2 / nrm**2
     # exact answer from dense SVD
     sv = np.linalg.svd(dense, compute_uv=False) / nrm
-    if abs(err2 - err.eps) > 1e-9 * max(1.0, 1.0) and abs(err2 - err.eps) > 1e-6 * max(err2, err.eps):
+    if not (abs(err2 - err.eps) <= 1e-9 * max(1.0, 1.0)) and not (abs(err2 - err.eps) <= 1e-6 * max(err2, err.eps)):
         ctx.violation('svd_theta:reported-eps-not-reconstruction-error',
                       'relative squared reconstruction error %r, reported eps %r' % (err2, err.eps), case)
     # kept values are the largest singular values of theta
     Sk = np.sort(S * renorm / nrm)[::-1]
-    if np.max(np.abs(Sk - sv[:k])) > 1e-8:
+    if not (np.max(np.abs(Sk - sv[:k])) <= 1e-8):
         ctx.violation('svd_theta:kept-not-largest-singular-values', 'kept %r vs svd %r' % (Sk[:6], sv[:6]), case)
     # constraints via the model on the dense spectrum (skip ties)
     K = _sector_rank_bound(theta)
@@ -510,25 +510,25 @@ def case_eigh_rho(ctx, i):
     if Vd.shape != (n, k):
         ctx.violation('eigh_rho:shape-mismatch', 'V %s W %d' % (Vd.shape, k), case)
         return
-    if np.linalg.norm(Vd.conj().T @ Vd - np.eye(k)) > 1e-9:
+    if not (np.linalg.norm(Vd.conj().T @ Vd - np.eye(k)) <= 1e-9):
         ctx.violation('eigh_rho:V-not-isometric', '', case)
     ev = np.sort(np.linalg.eigvalsh(rho_d))[::-1]
     ev = np.where(ev < 1e-14, 0, ev)
     # eigenvector property with original eigenvalues: rho V = V diag(w_orig)
     RV = rho_d @ Vd
     worig = np.real(np.einsum('ij,ij->j', Vd.conj(), RV))
-    if np.linalg.norm(RV - Vd * worig[None, :]) > 1e-8 * max(1, tr):
+    if not (np.linalg.norm(RV - Vd * worig[None, :]) <= 1e-8 * max(1, tr)):
         ctx.violation('eigh_rho:columns-not-eigenvectors', '', case)
-    if np.max(np.abs(np.sort(worig)[::-1] - ev[:k])) > 1e-8 * max(1, tr):
+    if not (np.max(np.abs(np.sort(worig)[::-1] - ev[:k])) <= 1e-8 * max(1, tr)):
         ctx.violation('eigh_rho:kept-not-largest-eigenvalues', 'kept %r vs %r' % (np.sort(worig)[::-1][:5], ev[:5]), case)
     kept_w = float(np.sum(ev[:k]))
     eps_exact = 1 - kept_w / float(np.sum(ev))
-    if abs(err.eps - eps_exact) > 1e-9:
+    if not (abs(err.eps - eps_exact) <= 1e-9):
         ctx.violation('eigh_rho:reported-eps-not-discarded-weight', 'eps %r exact %r' % (err.eps, eps_exact), case)
     # returned W: kept eigenvalues rescaled to the original trace
-    if abs(np.sum(W) - np.sum(ev)) > 1e-9 * max(1, tr):
+    if not (abs(np.sum(W) - np.sum(ev)) <= 1e-9 * max(1, tr)):
         ctx.violation('eigh_rho:W-not-renormalised-to-trace', 'sum W %r trace %r' % (np.sum(W), np.sum(ev)), case)
-    if kept_w > 0 and np.max(np.abs(np.sort(W)[::-1] - ev[:k] * (np.sum(ev) / kept_w))) > 1e-8 * max(1, tr):
+    if kept_w > 0 and not (np.max(np.abs(np.sort(W)[::-1] - ev[:k] * (np.sum(ev) / kept_w))) <= 1e-8 * max(1, tr)):
         ctx.violation('eigh_rho:W-values-wrong', '', case)
     sv = np.sqrt(ev / np.sum(ev))
     nk, info = model_truncate(sv, opts)
@@ -604,18 +604,18 @@ def case_qr_based(ctx, i):
         recon = renorm * ((L * S[None, :]) @ R)
     err2 = np.linalg.norm(td - recon)**2
     tol = 1e-8 if not use_eig else 1e-5
-    if abs(err2 - terr.eps) > tol:
+    if not (abs(err2 - terr.eps) <= tol):
         ctx.violation('qr_based:reported-eps-not-reconstruction-error', 'error^2 %r reported eps %r (use_eig=%r)' %
                       (err2, terr.eps, use_eig), case)
-    if abs(np.linalg.norm(S) - 1) > 1e-8:
+    if not (abs(np.linalg.norm(S) - 1) <= 1e-8):
         ctx.violation('qr_based:S-not-normalised', '|S|=%r' % np.linalg.norm(S), case)
     k = len(S)
     if k > opts['chi_max']:
         ctx.violation('qr_based:exceeds-chi_max', 'kept %d > chi_max %d' % (k, opts['chi_max']), case)
     # isometry of the tensor declared 'A' / 'B'
-    if form[0] == 'A' and np.linalg.norm(L.conj().T @ L - np.eye(L.shape[1])) > 1e-7:
+    if form[0] == 'A' and not (np.linalg.norm(L.conj().T @ L - np.eye(L.shape[1])) <= 1e-7):
         ctx.violation('qr_based:T_L-not-left-isometric', 'form %r' % (form, ), case)
-    if form[1] == 'B' and np.linalg.norm(R @ R.conj().T - np.eye(R.shape[0])) > 1e-7:
+    if form[1] == 'B' and not (np.linalg.norm(R @ R.conj().T - np.eye(R.shape[0])) <= 1e-7):
         ctx.violation('qr_based:T_R-not-right-isometric', 'form %r' % (form, ), case)
     ctx.sig(('qr_based', move_right, use_eig, expand, k, n, dtype), nontrivial=k < n)
     if i % 200 == 0:
